@@ -18,7 +18,7 @@ CHECKS = {
              "alphabet up to length 7 (quick) / 9 (thorough) plus random grammar strings and mutations, against the working tree; "
              "independent recursive-descent oracle.",
         design="5 C15", technique="Coq proof (induction on tokens/trees) + exhaustive-small-scope differential correspondence",
-        note="CPython's recursion limit (deep/wide names -> RecursionError) is outside the model; generated names stay below 300 levels."),
+        note="Known finding (recorded): names NESTED about 990 levels or deeper raise RecursionError (one frame per level); wide names (1200, 5000 parameters) are in the stream since the fix of the sibling recursion. The model's fuel (number of tokens + 1) never runs out (parse_total)."),
     "C07": dict(
         text="Theorem decode_encode: for every type tree and every value in the domain wt (all widths and bounds, all Unicode scalar "
              "strings, nested containers, every variant alternative, UUID/Offset leaves consistent with the node lookup), decode (encode v "
